@@ -17,6 +17,7 @@ func init() {
 		v := NewVariant(c)
 		w := v.World(c, true, 12)
 		v.Prologue(w)
+		burnerOn(c, w)
 		g := v.Gen(w, c, MixAll)
 		g.FeeProb = 0.2
 		n := c.N(200, 600)
